@@ -16,20 +16,25 @@ JUDGE_CFG = "INIT Init\nNEXT Next\nINVARIANT Emit\n"
 
 
 class World:
-    def __init__(self, sched_seed):
+    def __init__(self, sched_seed, agents=None):
+        self.AG = list(agents or AGENTS)
         self.w = AgentWorld()
         self.w.add_directory_agent("orchestrator")
         self.chan = collections.defaultdict(list)
         self.rnd = random.Random(sched_seed)
-        for a in AGENTS:
+        # drain order: seeded random choice among the non-empty channels, or (seed % 3 = 1, 2) the channels in a fixed priority
+        # order - everything one agent sent to the directory before what the other one sent, notifications last / first
+        self.policy = sched_seed % 3
+        for a in self.AG:
             self.w.add_agent(a)
         for name, ag in self.w.agents.items():
             ag._comm.send_msg = self._sender(name)
         self.w.boot("orchestrator")
-        for a in AGENTS:
+        for a in self.AG:
             self.w.boot(a)
         self.cblog = []
         self.pub_delivered, self.pub_ops = [], []
+        self.asub_delivered = []      # (subscriber, agent, the directory knew the agent) of every agent subscription the directory got
         self.cbs = collections.defaultdict(list)      # persistent callbacks registered per (agent, computation)
         self.silent, self.refused = [], []
         self.drain()
@@ -48,6 +53,8 @@ class World:
         msg = q.pop(0)
         if dst == "orchestrator" and msg.msg.type == "publish_computation":
             self.pub_delivered.append((msg.msg.computation, msg.msg.agent))
+        if dst == "orchestrator" and msg.msg.type == "subscribe_agent" and msg.msg.subscribe:
+            self.asub_delivered.append([src, msg.msg.agent, msg.msg.agent in self.w.directory.discovery._agents_data])
         before = self.views()
         n0 = len(self.cblog)
         self.w.agents[dst]._comm.receive_msg(src, dst, msg)
@@ -60,13 +67,14 @@ class World:
             ne = [k for k, q in self.chan.items() if q]
             if not ne:
                 return
-            self.deliver(*self.rnd.choice(sorted(ne)))
+            ne = sorted(ne)
+            self.deliver(*(self.rnd.choice(ne) if self.policy == 0 else ne[0] if self.policy == 1 else ne[-1]))
         raise MachineryError("discovery messages never drain")
 
     # ---- observation -------------------------------------------------------
     def views(self):
         out = {}
-        for a in AGENTS:
+        for a in self.AG:
             d = self.w.agents[a].discovery
             for c in COMPS:
                 out[(a, "C", c)] = (d._computations_data.get(c, ""), len(d._computation_cbs.get(c, ())) if c in d._computation_cbs else 0)
@@ -97,9 +105,11 @@ class World:
         return {"at": at,
                 "dirC": {c: dd._computations_data.get(c, "") for c in COMPS},
                 "dirR": {c: sorted(dd.discovery._replicas_data[c]) if c in dd.discovery._replicas_data else [] for c in COMPS},
-                "viewC": {a: {c: self.w.agents[a].discovery._computations_data.get(c, "") for c in COMPS} for a in AGENTS},
+                "dirA": sorted(x for x in self.AG if x in dd.discovery._agents_data),
+                "viewA": {a: sorted(x for x in self.AG if x in self.w.agents[a].discovery._agents_data) for a in self.AG},
+                "viewC": {a: {c: self.w.agents[a].discovery._computations_data.get(c, "") for c in COMPS} for a in self.AG},
                 "viewR": {a: {c: (sorted(self.w.agents[a].discovery._replicas_data[c]) if c in self.w.agents[a].discovery._replicas_data else [])
-                              for c in COMPS} for a in AGENTS}}
+                              for c in COMPS} for a in self.AG}}
 
     # ---- operations -----------------------------------------------------------
     def cb(self, a, kind, c):
@@ -146,6 +156,14 @@ class World:
                 d.subscribe_replica(c, self.cb(a, "R", c))
             elif k == "runsub":
                 d.unsubscribe_replica(c)
+            elif k == "asub":
+                d.subscribe_agent(c)
+            elif k == "asubcb":
+                d.subscribe_agent(c, self.cb(a, "A", c))
+            elif k == "aunsub":
+                d.unsubscribe_agent(c)
+            elif k == "aunreg":
+                d.unregister_agent(a)
             else:
                 raise MachineryError("unknown operation %r" % o)
         except MachineryError:
@@ -154,13 +172,13 @@ class World:
             self.refused.append({"op": o, "why": "%s: %s" % (type(e).__name__, str(e)[:80])})
             return False
         self.w.drain(a)
-        if k not in ("runsub", "unsub"):      # (an unsubscription removes the callbacks in the very call that drops the entry)
+        if k not in ("runsub", "unsub", "aunsub", "aunreg"):      # (an unsubscription removes the callbacks in the very call that drops the entry)
             self.check_silent(before, n0)
         return True
 
 
-def execute(hid, ops, sched_seed):
-    w = World(sched_seed)
+def execute(hid, ops, sched_seed, agents=None):
+    w = World(sched_seed, agents)
     done, obs = [], []
     for o in ops:
         if w.op(o) and o["k"] not in ("dl", "drain"):
@@ -170,23 +188,49 @@ def execute(hid, ops, sched_seed):
     w.drain()
     obs.append(w.observe(len(done)))
     exc = [{"agent": e[0], "what": "%s handling %s from %s" % (e[4].split(":")[0], e[3], e[1])} for e in w.w.exc]
-    return {"id": hid, "agents": AGENTS, "comps": COMPS, "ops": done, "obs": obs, "exc": exc,
+    return {"id": hid, "agents": w.AG, "comps": COMPS, "ops": done, "obs": obs, "exc": exc,
             "silent": [x for x in w.silent], "refused": w.refused, "script": ops, "sched_seed": sched_seed,
-            "late_pub": w.late_publications()}, w
+            "late_pub": w.late_publications(), "asub_delivered": list(w.asub_delivered)}, w
 
 
 def run(tier):
     quick = tier == "quick"
     v = Verdict("C20", tier, "model_checking")
     consts = dict(Agents=set(AGENTS), Comps=set(COMPS))
+    ALL = {"reg", "unreg", "sub", "subcb", "subone", "unsub", "unsubcb", "rep", "unrep", "rsub", "rsubcb", "runsub"}
+    consts = dict(consts, Kinds=ALL, WithAgentOps=False, DrainOnly=False)
     cases, res = CC.generate("Gen_C20", consts=dict(consts, MaxLen=3 if quick else 4, Exhaustive=True, WithDeliveries=True), cfg=GEN_CFG, workers=8,
                              heap="6g", silent_states=1)
-    v.add_tlc(res, "all histories of at most %d operations / single deliveries (Gen_C20 over Discovery.tla)" % (3 if quick else 4))
+    v.add_tlc(res, "all histories of at most %d computation / replica operations / single deliveries (Gen_C20 over Discovery.tla)" % (3 if quick else 4))
     # one computation, no explicit deliveries (every history is drained in a seeded order at its end): one operation deeper
-    cases1, res1 = CC.generate("Gen_C20", consts=dict(Agents=set(AGENTS), Comps={"c1"}, MaxLen=4 if quick else 5, Exhaustive=True, WithDeliveries=False),
+    cases1, res1 = CC.generate("Gen_C20", consts=dict(consts, Comps={"c1"}, MaxLen=4 if quick else 5, Exhaustive=True, WithDeliveries=False),
                                cfg=GEN_CFG, workers=8, heap="6g", silent_states=1)
-    v.add_tlc(res1, "all histories of at most %d operations on one computation (Gen_C20)" % (4 if quick else 5))
-    cases = cases + cases1
+    v.add_tlc(res1, "all histories of at most %d computation / replica operations on one computation (Gen_C20)" % (4 if quick else 5))
+    # agent subscriptions and departures, with the computation operations that make an agent known to another one
+    casesA, resA = CC.generate("Gen_C20", consts=dict(consts, Comps={"c1"}, Kinds={"reg", "unreg", "sub", "rep"}, WithAgentOps=True, MaxLen=4,
+                                                      Exhaustive=True, WithDeliveries=False), cfg=GEN_CFG, workers=8, heap="6g", silent_states=1)
+    v.add_tlc(resA, "all histories of at most 4 operations among agent subscriptions, departures, register / unregister / subscribe / replica (Gen_C20)")
+    # three agents (a subscriber, a host and the holder of a replica are three different agents), registrations and replicas
+    cases3, res3 = CC.generate("Gen_C20", consts=dict(consts, Agents={"a1", "a2", "a3"}, Comps={"c1"}, Kinds={"reg", "sub", "rsub", "rep"},
+                                                      MaxLen=6, Exhaustive=True, WithDeliveries=True, DrainOnly=True), cfg=GEN_CFG, workers=8, heap="6g", silent_states=1)
+    v.add_tlc(res3, "all histories of at most 6 operations / drains among register / subscribe / replica operations by three agents (Gen_C20)")
+    # (what this family adds is about replica views: only the histories with a replica subscription and a replica are kept)
+    n3 = len(cases3)
+    cases3 = [c for c in cases3 if {"rep", "rsub"} <= {o["k"] for o in c["ops"]}]
+    v.cov["three_agent_histories"] = {"generated": n3, "with_replica_and_subscription": len(cases3)}
+    if quick and len(cases3) > 5000:
+        random.Random(seed() + 2021).shuffle(cases3)
+        cases3 = cases3[:5000]
+    for c3 in cases3:
+        c3["agents"] = ["a1", "a2", "a3"]
+    v.cov["histories_generated"] = {"with_deliveries": len(cases), "one_computation": len(cases1), "agent_operations": len(casesA), "three_agents": len(cases3)}
+    sampled = False
+    if quick and len(casesA) > 6000:
+        # (the quick tier executes a seeded sample of the agent-operation histories)
+        random.Random(seed() + 2020).shuffle(casesA)
+        casesA, sampled = casesA[:6000], True
+    cases = cases + cases1 + casesA + cases3
+    consts = dict(consts, WithAgentOps=True)
     sim = tlc.run("Gen_C20", GEN_CFG, consts=dict(consts, MaxLen=10, Exhaustive=False, WithDeliveries=True), workers=1, simulate=400 if quick else 6000, depth=11,
                   seed=seed() + 20, timeout=240 if quick else 1200)
     v.add_tlc(sim, "random histories of 10 operations (TLC -simulate)")
@@ -194,11 +238,13 @@ def run(tier):
     hist = []
     r = random.Random(seed() + 20)
     for case in cases + longer:
-        for rep in range(1 if len(case["ops"]) <= 3 else 2):
-            h, _ = execute(len(hist), case["ops"], r.randrange(10 ** 6))
+        explicit = any(o["k"] in ("dl", "drain") for o in case["ops"])
+        for rep in range(1 if len(case["ops"]) <= 3 and explicit else 2 if explicit else 3):
+            # (histories without explicit deliveries are drained at their end: once in a random order, once per priority order)
+            h, _ = execute(len(hist), case["ops"], 3 * r.randrange(10 ** 6) + (rep if not explicit else 0), case.get("agents"))
             hist.append(h)
     from ..judge import judge
-    verdicts, jres = judge("Judge_C20", hist, strip=("refused", "script", "sched_seed", "late_pub"))
+    verdicts, jres = judge("Judge_C20", hist, strip=("refused", "script", "sched_seed", "late_pub", "asub_delivered"))
     v.add_tlc(jres, "convergence judged on %d executed histories (Judge_C20 / Discovery.tla)" % len(hist))
     refused = collections.Counter()
     for h in hist:
@@ -206,7 +252,7 @@ def run(tier):
         v.cov["traces_validated_against_impl"] += 1
         for x in h["refused"]:
             refused[x["op"]["k"] + ": " + x["why"].split(":")[0]] += 1
-        if any(o["k"] in ("sub", "subcb", "subone", "rsub", "rsubcb") for o in h["ops"]):
+        if any(o["k"] in ("sub", "subcb", "subone", "rsub", "rsubcb", "asub", "asubcb") for o in h["ops"]):
             v.cov["distinct_nontrivial"] += 1
         seen = set()
         for b in verdicts[h["id"]]:
@@ -216,31 +262,38 @@ def run(tier):
             seen.add(clause)
             kinds = [o["k"] for o in h["ops"]]
             key = {"clause": clause, "after_unreg": "unreg" in kinds, "after_runsub": "runsub" in kinds, "after_unsub": "unsub" in kinds,
-                   "with_replica": "rep" in kinds}
+                   "with_replica": "rep" in kinds, "agent_left": "aunreg" in kinds}
             if clause == "computation_view_differs_from_directory":
                 view, dirv, host = b[3], b[4], b[5]
                 key["diagnosis"] = ("stale_entry_for_unhosted_computation" if dirv == "" and host == "" and view != "" else
                                 "directory_lost_a_hosted_computation" if dirv == "" and host != "" else
                                 "view_misses_directory_entry" if view == "" else "view_and_directory_name_different_hosts")
                 key["publications_overtook_each_other"] = b[2] in h["late_pub"]
+            if clause == "agent_view_differs_from_directory":
+                # what the directory knew when it got this agent's last subscription to the other one
+                got = [x for x in h["asub_delivered"] if x[0] == b[1] and x[1] == b[2]]
+                stale = b[2] in h["obs"][-1]["viewA"][b[1]]
+                key["diagnosis"] = ("stale_address_directory_did_not_know_the_agent_at_subscription" if stale and got and not got[-1][2] else
+                                    "stale_address" if stale else "view_misses_registered_agent")
             v.violation(key, "%s for %s (operations %s)" % (clause, b[1:], " ".join("%s(%s,%s)" % (o["k"], o["a"], o["c"]) for o in h["ops"])),
-                        {"script": h["script"], "sched_seed": h["sched_seed"], "obs": h["obs"][-1], "exc": h["exc"], "bad": verdicts[h["id"]]})
+                        {"script": h["script"], "sched_seed": h["sched_seed"], "agents": h["agents"], "obs": h["obs"][-1], "exc": h["exc"], "bad": verdicts[h["id"]]})
         if not verdicts[h["id"]] and len(h["ops"]) >= 5:
             v.sample({"ops": ["%s(%s,%s)" % (o["k"], o["a"], o["c"]) for o in h["ops"]], "final": h["obs"][-1]}, cap=2)
     v.cov["api_calls_refused"] = dict(refused)
-    v.cov["exhaustive"] = True
+    v.cov["exhaustive"] = not sampled
     v.cov["rule"] = ("every history of at most %d enabled operations (register / unregister computation, subscribe without / with / one-shot "
-                     "callback, unsubscribe, publish / unpublish replica, subscribe / unsubscribe replicas, by 2 agents on 2 computations) and "
+                     "callback, unsubscribe, publish / unpublish replica, subscribe / unsubscribe replicas, subscribe / unsubscribe to an agent, an agent "
+                     "leaving, by 2 agents on 2 computations) and "
                      "single-message deliveries on the 4 agent<->directory channels, then TLC-simulated histories of 10; each executed on real "
                      "agents with a seeded drain order; non-trivial = the history contains a subscription" % (3 if quick else 4))
     v.cov["trusted_base"] = ["TLC", "vlib/agentrt.py", "the channel interception of vlib/props/C20.py (inter-agent sends held in per-pair FIFO lists)"]
-    v.assumptions = ["agents register at boot and stay; agent subscriptions and agent removal are exercised by C27, not here"]
+    v.assumptions = ["agents register at boot; an agent that leaves (unregister_agent) does nothing afterwards"]
     return v.finish()
 
 
 def replay(path):
     d = json.load(open(path))
-    h, w = execute(0, d["replay"]["script"], d["replay"]["sched_seed"])
+    h, w = execute(0, d["replay"]["script"], d["replay"]["sched_seed"], d["replay"].get("agents"))
     print(json.dumps(h["obs"][-1]), h["exc"], h["silent"])
     same = json.dumps(h["obs"][-1], sort_keys=True) == json.dumps(d["replay"]["obs"], sort_keys=True)
     print("same final observation as recorded:", same)
